@@ -271,6 +271,38 @@ CLAIMED = {
    'TLA+ spec + TLC model checking, replay of TLC-exported behaviours and TLC trace validation of recorded executions'),
 }
 
+# what the later rounds added to each check (DESIGN.md 10.8); appended to the level text
+ADDED = {
+ 'C01': 'Added later: families builtins2 (tolower/toupper, match() with RSTART/RLENGTH, mathematical functions, rand/srand across '
+        'spellings) and valuetype (value of && / ||, string type of concatenations), a NaN operand in the comparison family, actions '
+        'made of empty blocks.',
+ 'C03': 'Added later: the command line tool must name a file and an existing line for an error at the very end of the text.',
+ 'C04': 'Added later: Gen_GrammarExtra (a unary operator directly after ^ * / % + -) and the sign-adjacency family.',
+ 'C05': 'Added later: decimals of 16-19 digits (only the consistency of comparison and arithmetic is predicted), pair probes on array elements, '
+        'provenance fieldafter.',
+ 'C06': 'Added later: $k += d, sub/gsub on $k and $0 and getline $k as record operations (AssignRebuilds, SubAssigns).',
+ 'C07': 'Added later: inputs built from blocks (separators far longer than the pattern text), RS assigned while reading (RecordsSwitch, '
+        'MC_RecordReaderSwitch), counted repetition, paragraph mode with CR in the quick tier.',
+ 'C08': 'Added later: the disturbed reader (CsvReader!Disturbed: split(), getline var and $0 reassigned between field reads), one-byte custom separators.',
+ 'C09': 'Added later: argument kinds (input text through four provenances) for every conversion, runs of several formats in one interpreter, '
+        'print in default/CSV/TSV output mode x OFMT x CONVFMT.',
+ 'C10': 'Added later: U+FFFD subjects, $1 / $$x replacement texts, split() into a non-empty array and with the separator in a variable, 120 other '
+        'dynamic regexes first.',
+ 'C11': 'Added later: getline < "-" with file operands, numbers assigned to ARGV, family long (2100 records).',
+ 'C12': 'Added later: sessions of several Execute calls with different configurations on one Interpreter (IOStreams!NextRun).',
+ 'C13': 'Added later: a command that does not read its input (exit3), a system() child that reads a file (showf1), output mode x writer kind x a '
+        'failure at every offset.',
+ 'C14': 'Added later: 24 run kinds (standard input through every path, exit N then a failing END, commands), contexts that end after the call returned.',
+ 'C15': 'Added later: four print destinations with pending output at the cancellation point; children ending by status / signal / failing wait '
+        'under a never-cancelled context.',
+ 'C16': 'Added later: family frames (fewer arguments than parameters with omitted scalars and arrays mixed, run and compared).',
+ 'C17': 'Added later: string and []byte parameters under CONVFMT / nan / inf; AWK functions shadowing entries of Config.Funcs.',
+ 'C18': 'Added later: jump statements as last statement of a block; the profile file over several runs (append on/off, stale longer file).',
+ 'C19': 'Added later: several collected parse errors; regex objects in the program digest; repeated executions through every execution interface; '
+        'race build in the quick tier.',
+ 'C20': 'Added later: sign-adjacency family (all trees <= 3/4 operators over unary + - !, ++ --, + - ^, $).',
+}
+
 # checks that have been verified on the unchanged tree (seeds 1-3) and are therefore claimed
 REGISTERED = {'C01', 'C02', 'C03', 'C04', 'C05', 'C06', 'C07', 'C08', 'C09', 'C10', 'C11', 'C12', 'C13', 'C14', 'C15', 'C16', 'C17', 'C18', 'C19', 'C20'}
 
@@ -292,7 +324,7 @@ for p in props:
         m['checks'].append({'property_id': i, 'quick_cmd': f'./check {i} quick', 'thorough_cmd': f'./check {i} thorough',
                             'evidence_file': f'/verif/evidence/{i}.json', 'replay_cmd_template': f'./check {i} --replay {{path}}',
                             'engine': 'tlc+vreplay',
-                            'level_claimed': {'category': 'model_checking', 'text': text, 'design_ref': ref},
+                            'level_claimed': {'category': 'model_checking', 'text': text + (' ' + ADDED[i] if i in ADDED else ''), 'design_ref': ref},
                             'level_note': note, 'technique': tech})
     else:
         m['not_applicable'].append({'property_id': i, 'reason': 'check not built yet (work in progress; DESIGN.md section 6 gives the build order)'})
